@@ -14,6 +14,7 @@ pub mod pool;
 pub mod probe;
 pub mod rng;
 pub mod sig;
+pub mod w_chain;
 pub mod w_channel;
 pub mod w_close;
 pub mod w_default;
@@ -21,6 +22,7 @@ pub mod w_flag;
 pub mod w_forbid;
 pub mod w_halflock;
 pub mod w_instance;
+pub mod w_model;
 pub mod w_origin;
 pub mod w_pipe;
 pub mod w_iter;
@@ -128,8 +130,7 @@ pub static FREE_IN_HANDLER: AtomicU64 = AtomicU64::new(0);
 pub static ALLOC_TOTAL: AtomicU64 = AtomicU64::new(0);
 /// When set, heap operations made at dispatch depth > 0 are counted.
 pub static ALLOC_WATCH: AtomicBool = AtomicBool::new(false);
-/// Set by a thread (through `alloc_exempt`) that deliberately allocates inside a handler-like
-/// context (never by library code).
+// Set by a thread that deliberately allocates inside a handler-like context (never by library code).
 thread_local! {
     pub static ALLOC_EXEMPT: Cell<u32> = const { Cell::new(0) };
 }
